@@ -2876,8 +2876,29 @@ func (e *E3) nonNil(v ssa.Value, b *ssa.BasicBlock, d int) bool {
 	case *ssa.MakeInterface:
 		return true
 	case *ssa.Phi:
-		for _, ed := range x.Edges {
-			if !e.nonNil(ed, b, d+1) {
+		for i, ed := range x.Edges {
+			if e.nonNil(ed, b, d+1) {
+				continue
+			}
+			// the value on this edge may have been tested on the way: `if err == nil { err = ErrX }` joins the tested
+			// error (non-nil on the edge that skips the assignment) with the replacement
+			okEdge := false
+			if i < len(x.Block().Preds) {
+				pred := x.Block().Preds[i]
+				if e.nonNil(ed, pred, d+1) {
+					okEdge = true
+				}
+				for _, cd := range edgeConds(pred, x.Block()) {
+					if bo, ok := cd.V.(*ssa.BinOp); ok && (bo.Op == token.EQL || bo.Op == token.NEQ) {
+						if (sameErr(bo.X, ed) && isNilConst(bo.Y)) || (sameErr(bo.Y, ed) && isNilConst(bo.X)) {
+							if (bo.Op == token.NEQ) == cd.True {
+								okEdge = true
+							}
+						}
+					}
+				}
+			}
+			if !okEdge {
 				return false
 			}
 		}
